@@ -337,6 +337,55 @@ def h_report(k1: int, s1: str, d1: int, k2: int, s2: str, d2: int, has2: bool, k
     return run(body_report, k1, s1, d1, k2, s2, d2, has2, kindf, text, start, end)
 
 
+def body_report_history(k1, s1, d1, k2, s2, d2, kindf, text, start, end):
+    """The same REPORT issued repeatedly and interleaved with a second query on one long-lived store (the store
+    cache of the web layer), with the indexing threshold at 0: every answer is exactly the matching set."""
+    import xandikos.caldav as xcal
+    import xandikos.web as Wb
+    from xv.env import mweb
+    shape_a, shape_b = ctx.PART
+    table = {b"m1": (k1, s1, d1), b"m2": (k2, s2, d2)}
+    members = {"a.ics": b"m1", "b.ics": b"m2"}
+    specs = {sh: _calq.spec(sh, kindf, text, 1, False, start, end) for sh in (shape_a, shape_b)}
+    wants = {}
+    for sh, spec in specs.items():
+        wants[sh] = sorted(n for n, tok in members.items() if O.match_filter(spec, _calq.qcal_model(*table[tok]), contains=True))
+        eq = sorted(n for n, tok in members.items() if O.match_filter(spec, _calq.qcal_model(*table[tok]), contains=False))
+        if ctx.kf("C11-text-match-equality") and eq != wants[sh]:
+            return (True, "known")
+    _calq.QCAL_TABLE.clear()
+    _calq.QCAL_TABLE.update(table)
+    saved = (Wb.ICalendarFile, xcal.get_calendar_timezone)
+    Wb.ICalendarFile = _calq.QCal
+    xcal.get_calendar_timezone = lambda resource: None
+    try:
+        mweb.fresh_world(members, {})
+        app = mweb.make_app(index_threshold=0)
+        ok = True
+        for sh in (shape_a, shape_a, shape_b, shape_b, shape_a, shape_b):
+            el = ET.Element("{urn:ietf:params:xml:ns:caldav}calendar-query")
+            ET.SubElement(ET.SubElement(el, "{DAV:}prop"), "{DAV:}getetag")
+            el.append(_calq.filter_xml(sh, kindf, text, 1, False, start, end))
+            r = mweb.call(app, "REPORT", mweb.CAL + "/", xml=el, content_type="text/xml", headers=[("Depth", "1")])
+            if r.kind != "multistatus":
+                return (False, "no-multistatus")
+            got = sorted(st.href[len(mweb.CAL) + 1:] for st in r.statuses)
+            ok = ok and got == wants[sh]
+    finally:
+        Wb.ICalendarFile, xcal.get_calendar_timezone = saved
+    return (ok, "a%d-b%d" % (len(wants[shape_a]), len(wants[shape_b])))
+
+
+def h_report_history(k1: int, s1: str, d1: int, k2: int, s2: str, d2: int, kindf: int, text: str,
+                     start: int, end: int) -> bool:
+    """
+    pre: 0 <= k1 <= 2 and 0 <= k2 <= 2 and 0 <= kindf <= 2 and start < end
+    pre: max(len(s1), len(s2), len(text)) <= ctx.b.slen
+    post: _
+    """
+    return run(body_report_history, k1, s1, d1, k2, s2, d2, kindf, text, start, end)
+
+
 # ------------------------------------------------------------------ as_tz_aware_ts (the stub's contract)
 def body_tz_aware(y, mo, d, h, mi, kind, off):
     """The real as_tz_aware_ts: DATE -> midnight in the default zone; naive DATE-TIME -> default zone attached;
@@ -452,6 +501,19 @@ HARNESSES = [
         encodes=["xandikos.caldav.CalendarQueryReporter.report", "xandikos.caldav.CalendarDataProperty.get_value_ext",
                  "xandikos.web.CalendarCollection.calendar_query", "xandikos.store.Store.iter_with_filter",
                  "xandikos.webdav.ReportMethod.handle", "xandikos.webdav.traverse_resource"],
+    ),
+    Harness(
+        "report_history", h_report_history, body_report_history,
+        classes=[("a2-b2", ("comp", "comp-range")), ("a1-b2", ("prop-text", "comp"))],
+        parts={"quick": [("comp-range", "prop-text"), ("prop-text", "comp-range"), ("comp", "prop-undef")],
+               "thorough": [("comp-range", "prop-text"), ("prop-text", "comp-range"), ("comp", "prop-undef"),
+                            ("prop-present", "comp-range"), ("prop-range", "prop-text"), ("comp-undef", "prop-text")]},
+        bounds={"quick": {"slen": 2}, "thorough": {"slen": 3}}, budget={"quick": 100, "thorough": 420},
+        describe="six calendar-query REPORTs (two filters, A A B B A B) on one long-lived store with indexing threshold 0: "
+                 "every answer is exactly the matching set; part = (filter A shape, filter B shape)",
+        encodes=["xandikos.caldav.CalendarQueryReporter.report", "xandikos.web.CalendarCollection.calendar_query",
+                 "xandikos.store.Store.iter_with_filter", "xandikos.store.Store._iter_with_filter_indexes",
+                 "xandikos.store.index.AutoIndexManager.find_present_keys", "xandikos.web.open_store_from_path"],
     ),
     Harness(
         "tz_aware", h_tz_aware, body_tz_aware, classes=["date", "naive", "aware"],
